@@ -9,6 +9,7 @@ package main
 // store, and both requests must have been answered.
 
 import (
+	"github.com/tinode/chat/server/auth"
 	"fmt"
 	"strings"
 	"testing"
@@ -31,7 +32,53 @@ func vfAtLoad(prop, part string) {
 		{Kind: "deltopic", Actor: 0, Hard: true}, {Kind: "sub", Actor: 2, Mode: ""},
 	}
 	nb := 0
-	for _, op := range menu {
+	vfAtLoadRun(r, &nb, shard, shards, "grp", len(menu), func(i int) string { return menu[i].String() }, func(i int) string { return menu[i].Kind },
+		func() (*vfTW, int) { return vfBuildTW(vfTWOpts{Users: 4, PreSub: []int{1, 2}, Admin: []int{1}}), 1 },
+		func(t *vfTW, i int) (string, *vfClient) { return t.aclRequest(menu[i]) })
+	// the same on a p2p topic: u1's {sub} loads it, u0 (not attached) acts meanwhile
+	pmenu := []vfP2POp{{Kind: "setpriv", Actor: 0}, {Kind: "setself", Actor: 0, Mode: "JRW"}, {Kind: "unsub", Actor: 0},
+		{Kind: "setother", Actor: 0, Mode: "JRWA"}, {Kind: "deltopic", Actor: 0, Hard: true}, {Kind: "sub", Actor: 0, Mode: ""}}
+	vfAtLoadRun(r, &nb, shard, shards, "p2p", len(pmenu), func(i int) string { return "p2p:" + pmenu[i].String() }, func(i int) string { return "p2p:" + pmenu[i].Kind },
+		func() (*vfTW, int) { return vfBuildP2PTW(), 1 },
+		func(t *vfTW, i int) (string, *vfClient) { return t.p2pRequest(pmenu[i], 9) })
+	r.Sample("setpriv(u2) at event 9 (after store call SubsForTopic)")
+}
+
+// vfBuildP2PTW: u0 and u1 with a p2p topic holding one message, u2 an outsider; everybody detached
+// and the topic unloaded is up to the caller (unload()).
+func vfBuildP2PTW() *vfTW {
+	w := vfBoot(vfBootOpts{})
+	t := &vfTW{w: w, names: map[string]string{}}
+	for i := 0; i < 3; i++ {
+		u := w.vfMakeUser(fmt.Sprintf("u%d", i), auth.LevelAuth, map[string]any{"fn": fmt.Sprintf("U%d", i)})
+		t.users = append(t.users, u)
+		t.names[u.id()] = u.name
+		c := w.vfConnect(fmt.Sprintf("s%d", i))
+		vsched.Quiesce()
+		if code := c.Login(u); code != 200 {
+			vsched.Fail("harness", fmt.Sprintf("login %d", code))
+		}
+		t.cl = append(t.cl, c)
+	}
+	t.grp = t.users[0].uid.P2PName(t.users[1].uid)
+	if code, _ := t.cl[0].Req(`{"sub":{"id":"$ID","topic":"%s"}}`, t.users[1].id()); code != 200 {
+		vsched.Fail("harness", fmt.Sprintf("p2p create %d", code))
+	}
+	if code, _ := t.cl[1].Req(`{"sub":{"id":"$ID","topic":"%s"}}`, t.users[0].id()); code >= 300 {
+		vsched.Fail("harness", fmt.Sprintf("p2p join %d", code))
+	}
+	if code, _ := t.cl[0].Req(`{"pub":{"id":"$ID","topic":"%s","content":"m1"}}`, t.users[1].id()); code != 202 {
+		vsched.Fail("harness", fmt.Sprintf("p2p first pub %d", code))
+	}
+	vsched.Quiesce()
+	return t
+}
+
+func vfAtLoadRun(r *vfev.Report, nbp *int, shard, shards int, target string, nops int, opName func(int) string, opKind func(int) string,
+	build func() (*vfTW, int), request func(t *vfTW, i int) (string, *vfClient)) {
+	nb := *nbp
+	defer func() { *nbp = nb }()
+	for oi := 0; oi < nops; oi++ {
 		events := 0
 		for k := 0; k <= events+1; k++ {
 			nb++
@@ -44,12 +91,21 @@ func vfAtLoad(prop, part string) {
 			var loaded, alive bool
 			where := "after the load"
 			res := vsched.Run(vsched.Config{MaxSteps: 4000000}, func() {
-				t := vfBuildTW(vfTWOpts{Users: 4, PreSub: []int{1, 2}, Admin: []int{1}})
+				t, loader := build()
+				if target == "p2p" {
+					for i := 0; i < 2; i++ {
+						t.cl[i].Req(`{"leave":{"id":"$ID","topic":"%s"}}`, t.users[1-i].id())
+					}
+				}
 				t.unload()
 				if vfTopic(t.grp) != nil {
 					vsched.Fail("harness", "topic did not unload")
 				}
-				req, c := t.aclRequest(op)
+				addr := t.grp
+				if target == "p2p" {
+					addr = t.users[1-loader].id()
+				}
+				req, c := request(t, oi)
 				n := 0
 				prev := memdb.OnCall
 				opID := ""
@@ -76,7 +132,7 @@ func vfAtLoad(prop, part string) {
 				vatomic.OnOp = func(write bool) { event("atomic operation") }
 				restore := func() { memdb.OnCall, memdb.OnReturn, vatomic.OnOp = prev, nil, nil }
 				vsched.OnKill(restore)
-				subCode, _ = t.cl[1].Req(`{"sub":{"id":"$ID","topic":"%s"}}`, t.grp)
+				subCode, _ = t.cl[loader].Req(`{"sub":{"id":"$ID","topic":"%s"}}`, addr)
 				restore()
 				if k == 0 {
 					events = n
@@ -98,9 +154,9 @@ func vfAtLoad(prop, part string) {
 				loaded, alive = s.Loaded, s.alive()
 				diffs = s.cacheVsStore()
 			})
-			name := fmt.Sprintf("%s %s", op, where)
+			name := fmt.Sprintf("%s %s", opName(oi), where)
 			r.Eval(1)
-			r.Distinct(fmt.Sprintf("%s/%d", op, k))
+			r.Distinct(fmt.Sprintf("%s/%d", opName(oi), k))
 			r.States++
 			r.Transitions += int64(res.Steps)
 			r.Traces++
@@ -108,23 +164,22 @@ func vfAtLoad(prop, part string) {
 			for _, v := range vfStatusViolations(res) {
 				r.Violation("C08:at-load:"+v.Key, name+": "+v.What, det)
 			}
-			r.Outcome(fmt.Sprintf("%s sub=%d req=%d loaded=%v diffs=%d", op.Kind, subCode/100, opCode/100, loaded, len(diffs)))
+			r.Outcome(fmt.Sprintf("%s sub=%d req=%d loaded=%v diffs=%d", opKind(oi), subCode/100, opCode/100, loaded, len(diffs)))
 			if subCode == 0 {
 				r.Violation("C13:unanswered:at-load:sub", name+": the {sub} which loads the topic was never answered", det)
 			}
 			if opCode == 0 {
-				r.Violation("C13:unanswered:at-load:"+op.Kind, name+": the request was never answered", det)
+				r.Violation("C13:unanswered:at-load:"+opKind(oi), name+": the request was never answered", det)
 			}
 			for _, d := range diffs {
 				field := d
 				if i := strings.Index(d, ":"); i > 0 {
 					field = strings.Fields(d[:i])[0]
 				}
-				r.Violation("C08:cache-differs-from-store:during-load:"+field+":"+op.Kind, fmt.Sprintf("%s (answered %d; the loading {sub} answered %d): %s", name, opCode, subCode, d), det)
+				r.Violation("C08:cache-differs-from-store:during-load:"+field+":"+opKind(oi), fmt.Sprintf("%s (answered %d; the loading {sub} answered %d): %s", name, opCode, subCode, d), det)
 			}
 		}
 	}
-	r.Sample("setpriv(u2) at event 9 (after store call SubsForTopic)")
 }
 
 func TestVerifC08AtLoad(t *testing.T) { vfAtLoad("C08", "at-load") }
